@@ -673,8 +673,86 @@ pub fn resp_case() -> BoxedStrategy<crate::props::common::RespCase> {
         })
         .prop_map(|(cfg, hist, mut req, flags, cap, fill)| {
             req[7] = flags;
+            // one request in four carries an SMBus source address unrelated to its source EID
+            if fill & 3 == 0 {
+                req[3] = fill.wrapping_mul(29) | 1;
+            }
             refmodel::fix_pec(&mut req);
             crate::props::common::RespCase { cfg, hist, req, cap, fill }
         })
         .boxed()
+}
+
+/// A call that differs from `call` in one argument (or is the same call to a
+/// slightly different destination).  Used as the *previous* encode on the same
+/// context, to expose state kept between encodes (caches keyed on part of the
+/// arguments, counters, ...).
+pub fn similar_call(call: &EncCall, seed: u32) -> EncCall {
+    use EncCall::*;
+    let b = seed as u8;
+    match call {
+        ReqVendor { format, data, numeric, msg } => match seed % 4 {
+            0 => ReqVendor { format: *format, data: data ^ (((seed >> 8) | 1) << 16), numeric: *numeric, msg: msg.clone() },
+            1 => ReqVendor { format: *format, data: data ^ ((seed >> 8) & 0xFFFF | 1), numeric: *numeric, msg: msg.clone() },
+            2 => ReqVendor { format: format ^ 1, data: *data, numeric: *numeric, msg: msg.clone() },
+            _ => ReqVendor { format: *format, data: *data, numeric: *numeric, msg: msg.iter().map(|x| x ^ b).collect() },
+        },
+        ReqSetEndpointId { op, eid } => ReqSetEndpointId { op: (op + 1 + b % 3) % 4, eid: if eid ^ b == 0 || eid ^ b == 0xFF { 0x42 } else { eid ^ b } },
+        ReqAllocateEids { op, pool, start } => ReqAllocateEids { op: *op, pool: *start, start: *pool ^ b },
+        ReqQueryHop { eid, mt } => ReqQueryHop { eid: eid ^ (b | 1), mt: (mt + 1) % 6 },
+        ReqResolveUuid { uuid, handle } => {
+            let mut u = *uuid;
+            u[(b % 16) as usize] ^= b | 1;
+            ReqResolveUuid { uuid: u, handle: handle ^ b }
+        }
+        ReqRoutingUpdate { entries } => {
+            let mut e = entries.clone();
+            if let Some(x) = e.last_mut() {
+                x[(b % 4) as usize] ^= b | 1;
+            } else {
+                e.push([b, 1, 2, 3]);
+            }
+            ReqRoutingUpdate { entries: e }
+        }
+        TraitPci { half, header, data } => TraitPci { half: *half, header: header.clone(), data: data.iter().map(|x| x ^ b).collect() },
+        TraitIana { half, header, data } => TraitIana { half: *half, header: header.clone(), data: data.iter().map(|x| x ^ b).collect() },
+        TraitSpdm { half, secured, header, data } => TraitSpdm { half: *half, secured: !secured, header: header.clone(), data: data.clone() },
+        RespUuid { cc, uuid } => {
+            let mut u = *uuid;
+            u[(b % 16) as usize] ^= b | 1;
+            RespUuid { cc: *cc, uuid: u }
+        }
+        RespMsgTypes { cc, types } => {
+            let mut t = types.clone();
+            if t.len() < 30 {
+                t.push(b);
+            } else {
+                t.pop();
+            }
+            RespMsgTypes { cc: *cc, types: t }
+        }
+        RespVendorSupport { cc, selector, vendor_id } => RespVendorSupport { cc: *cc, selector: selector ^ (b | 1), vendor_id: vendor_id.iter().map(|x| x ^ b).collect() },
+        other => other.clone(),
+    }
+}
+
+/// With probability 1/4 append, to the sender's history, an encode of a call
+/// similar to `call` (to the same destination or to one differing in one bit).
+pub fn with_similar_predecessor(mut env: EncEnv, call: &EncCall, seed: u32) -> EncEnv {
+    if seed & 3 == 0 {
+        let dest = match (seed >> 2) & 3 {
+            0 => env.dest,
+            1 => env.dest ^ 0x80,
+            2 => env.dest ^ 0x01,
+            _ => env.dest ^ (1 << ((seed >> 4) & 7)),
+        };
+        env.hist.push(Op::Encode { call: similar_call(call, seed >> 7), dest });
+    }
+    env
+}
+
+/// (environment, call) pairs for the encoder-side properties: the environment
+/// of `enc_env`, now and then extended by a similar predecessor encode.
+pub fn enc_pair(dest: BoxedStrategy<u8>, call: BoxedStrategy<EncCall>) -> BoxedStrategy<(EncEnv, EncCall)> {
+    (enc_env(dest), call, any::<u32>()).prop_map(|(env, call, seed)| (with_similar_predecessor(env, &call, seed), call)).boxed()
 }
